@@ -1,4 +1,5 @@
 import UF.Proofs.ProgRun
+import UF.Model.LockSections
 import UF.Gen.Facts
 /-
   C14 — engines can be queried concurrently: race-free and sequentially consistent.  PARTIAL BY NATURE.
@@ -6,7 +7,8 @@ import UF.Gen.Facts
   What is proved here is a statement about the abstract Prog model: for EVERY schedule of its atomic
   actions, every finished query returned the stateless answer.  That one critical section of the Go
   code is one atomic action of the model is an ASSUMPTION; it is compared on every run with the lock
-  table extracted from the source (`c14_fact_lock_table`).  The Go memory model, the scheduler,
+  facts extracted from the source (`c14_fact_lock_table`, `c14_fact_sections_exist` here, the section-level
+  obligations in Props/C14Sections.lean).  The Go memory model, the scheduler,
   sync.Mutex/RWMutex, sync.Pool, os.File and regexp internals are outside the model; the `-race` runs
   of the harness (bin/vconfig_groupf.py `c14_extra`) are exploration, not proof.
 -/
@@ -21,21 +23,45 @@ def properlyLocked (row : String × String × String × String) : Bool :=
   ["Lock(recv)", "Lock(cacheMu)"].contains lock ||
     (kind == "r" && ["RLock(recv)", "RLock(cacheMu)"].contains lock)
 
-/-- FACT (regenerated from /repo on every run by go/ast): which methods touch `RuleStorage.cache`,
-    `FileRuleList.File/buffer`, `NetworkRule.regex/invalid` through their receiver, whether they read or
-    write, and which lock they hold at that point.  Every such access is either one of the model's
-    action-table rows (the few accesses that are deliberately unlocked: construction-time and single-owner
-    paths) or happens under the matching lock -- so extracting a locked section into a helper method does
-    not disturb the obligation, while dropping or narrowing a lock does. -/
+/-- FACT (regenerated from /repo on every run, go/types over every package of the module: `Facts.p4Accesses`,
+    harness/facts_p4.go): EVERY access to `RuleStorage.cache`, `FileRuleList.File/buffer`, `NetworkRule.regex/invalid`
+    -- through a receiver, a local, a parameter, in a method, a free function or a closure -- is either one of the
+    deliberately unlocked actions of the model (`unlockedActions`: the unlocked rows of the action table, matched
+    with their function, plus the constructor's store of the opened file) or coincides, UP TO THE FUNCTION IT SITS
+    IN, with a locked row of the action table: same field, same access kind, same lock -- held in the function itself
+    or at every call site of the unexported helper it was extracted into.  So extracting a locked section, or a part
+    of one, into a helper does not disturb the obligation (harmless/13, harmless/33), while dropping, narrowing or
+    weakening a lock, or touching guarded state from a new unlocked place, does.
+    (Restated by work group P4: until then the obligation ran over the receiver-only, intra-procedural
+    `Facts.lockTable` and whitelisted rows BY METHOD NAME, so it alarmed on harmless/33 and could not see accesses
+    through other expressions -- item F6 of notes/REVIEW2.md.  The stricter per-field criterion -- `File`/`buffer`
+    need the exclusive side -- is `c14_fact_accesses_locked` in Props/C14Sections.lean.) -/
 theorem c14_fact_lock_table :
-    Facts.lockTable.all (fun row => actionTable.contains row || properlyLocked row) = true := by decide
+    Facts.p4Accesses.all (fun r =>
+      unlockedActions.contains (r.1, r.2.1, r.2.2.1) ||
+      r.2.2.2.any (fun l => (actionTable.filter properlyLocked).any (fun row =>
+        row.2 == (shortField r.2.1, r.2.2.1, shortLock l)))) = true := by decide
 
-/-- …and every critical section the model's atomic actions stand for still exists in the code: each
-    locked row of the action table has a row of the extracted table with the same field, access kind
-    and lock. -/
+/-- …and every critical section the model's atomic actions stand for still exists in the code: each locked row of
+    the action table has a critical section (`Facts.p4Sections`: one row per Lock/Unlock pair, module functions
+    called inside it inlined) under that lock -- or, for the read side of `cacheMu`, under its write side -- that
+    makes that access.  (Restated by work group P4 over the typed, inlined section table; which accesses lie
+    TOGETHER in one section is `c14_fact_model_sections_exist` / `c14_fact_sections_check_then_act`.) -/
 theorem c14_fact_sections_exist :
     (actionTable.filter properlyLocked).all (fun row =>
-      Facts.lockTable.any (fun r => r.2 == row.2)) = true := by decide
+      Facts.p4Sections.any (fun s => lockServes s.2.1 row.2.2.2 &&
+        s.2.2.any (fun a => shortField a.1 == row.2.1 && a.2 == row.2.2.1))) = true := by decide
+
+/-- Non-vacuity of the two obligations above: the row a helper extracted from the write-locked section yields is
+    accepted whatever the helper is called; the same access with no lock held, or under the read side only, is not. -/
+example :
+    let ok := fun (r : String × String × String × List String) =>
+      unlockedActions.contains (r.1, r.2.1, r.2.2.1) ||
+      r.2.2.2.any (fun l => (actionTable.filter properlyLocked).any (fun row =>
+        row.2 == (shortField r.2.1, r.2.2.1, shortLock l)))
+    ok ("filterlist.RuleStorage.anyHelper", "RuleStorage.cache", "w", ["Lock(RuleStorage.cacheMu)/caller"]) = true ∧
+    ok ("filterlist.peekCache", "RuleStorage.cache", "r", []) = false ∧
+    ok ("filterlist.RuleStorage.anyHelper", "RuleStorage.cache", "w", ["RLock(RuleStorage.cacheMu)"]) = false := by decide
 
 /-- FACT (go/ast over the packages urlfilter, lookup, filterlist, recomputed on every run): NO function on a
     query path -- reachable, in the name-based call graph, from an exported function or method that is neither a
